@@ -1,10 +1,10 @@
 package main
 
 import (
-	"go/types"
 	"fmt"
 	"go/ast"
 	"go/token"
+	"go/types"
 	"sort"
 	"strings"
 
@@ -317,7 +317,7 @@ func charsetTableRule(c *Ctx, p *Prog, rule string) {
 	}
 	type pair struct {
 		name, obj string
-		pos      token.Pos
+		pos       token.Pos
 	}
 	var pairs []pair
 	nonConst := 0
